@@ -425,31 +425,7 @@ func (x *Exec) callContract(f *Frame, callee *ssa.Function, con *Contract, args 
 		x.assume(x.cur.reach, mk(SBool, "(>= %s %s)", na, a))
 		x.cur.heaps["$alloc"] = na
 	}
-	ms := x.resolveModifies(con, env)
-	for hn := range ms.whole {
-		h := x.cur.heaps[hn]
-		if h.S == "" {
-			h = x.initHeaps[hn]
-		}
-		if h.S == "" {
-			continue
-		}
-		x.cur.heaps[hn] = x.b.Fresh("hv_"+hn, h.Sort)
-	}
-	for hn, objs := range ms.objs {
-		h, ok := x.cur.heaps[hn]
-		if !ok {
-			h, ok = x.initHeaps[hn]
-		}
-		if !ok {
-			// heap not yet touched: create it through the env evaluation (already done by resolveModifies)
-			continue
-		}
-		for _, o := range objs {
-			h = StoreT(h, o, x.b.Fresh("hv_"+hn, arrayElem(h.Sort)))
-		}
-		x.cur.heaps[hn] = x.b.Def(hn, h)
-	}
+	x.havocModifies(con, env)
 	// results
 	res := callee.Signature.Results()
 	out := make([]Term, res.Len())
@@ -509,7 +485,15 @@ func (x *Exec) callContract(f *Frame, callee *ssa.Function, con *Contract, args 
 	penv := x.newEnv(post, x.cur.clone(), pre)
 	penv.specPkg = contractPkg(con)
 	penv.fnPos = token.NoPos
+ensLoop:
 	for _, e := range con.Ensures {
+		// a postcondition over the callee's ghost locals states something about its own execution; it has
+		// no meaning at a call site and is not assumed there
+		for _, g := range con.Ghosts {
+			if mentionsVar(e.Expr, g.Name) {
+				continue ensLoop
+			}
+		}
 		x.assumeSpec(x.cur.reach, e.Expr, penv, "ensures of "+short+": "+e.Src)
 	}
 	if con.Trusted {
@@ -637,6 +621,36 @@ func (x *Exec) execCallback(f *Frame, i *ssa.Call) {
 	x.bindCallResult(f, i, sig, out)
 }
 
+// havocModifies gives fresh values to everything the contract's modifies clauses name (whole heaps for
+// every(...), single cells otherwise), evaluated in env.
+func (x *Exec) havocModifies(con *Contract, env *Env) {
+	ms := x.resolveModifies(con, env)
+	for hn := range ms.whole {
+		h := x.cur.heaps[hn]
+		if h.S == "" {
+			h = x.initHeaps[hn]
+		}
+		if h.S == "" {
+			continue
+		}
+		x.cur.heaps[hn] = x.b.Fresh("hv_"+hn, h.Sort)
+	}
+	for hn, objs := range ms.objs {
+		h, ok := x.cur.heaps[hn]
+		if !ok {
+			h, ok = x.initHeaps[hn]
+		}
+		if !ok {
+			// heap not yet touched: create it through the env evaluation (already done by resolveModifies)
+			continue
+		}
+		for _, o := range objs {
+			h = StoreT(h, o, x.b.Fresh("hv_"+hn, arrayElem(h.Sort)))
+		}
+		x.cur.heaps[hn] = x.b.Def(hn, h)
+	}
+}
+
 func (x *Exec) execInvoke(f *Frame, i *ssa.Call) {
 	c := &i.Call
 	recv := x.term(f, c.Value)
@@ -687,6 +701,8 @@ func (x *Exec) execInvoke(f *Frame, i *ssa.Call) {
 		na := x.b.Fresh("alloc_after_"+m.Name(), SInt)
 		x.assume(x.cur.reach, mk(SBool, "(>= %s %s)", na, a))
 		x.cur.heaps["$alloc"] = na
+		env.specPkg = contractPkg(con)
+		x.havocModifies(con, env)
 	}
 	res := sig.Results()
 	out := make([]Val, res.Len())
